@@ -68,6 +68,9 @@ SEEDS = [
     '2["a",1]', '2["a","§B0§"]', '2/x,["a","§B1§"]', '2/x,["*","§B1§",1]',
     '2/x,3["zz",{"k":1}]', '2/c,["a"]', '2/c,7["b",[1,2]]', '2/c,["zz"]',
     '51-["a",{"_placeholder":true,"num":0}]',
+    '50-["a",{"_placeholder":true,"num":0}]',
+    '60-§ID0§[{"_placeholder":true,"num":0}]',
+    '50-/x,["a",[{"_placeholder":true,"num":3}]]',
     '52-/x,9["a",{"_placeholder":true,"num":1},{"_placeholder":true,"num":0}]',
     '3/x,§ID1§["r"]', '3§ID0§[]', '31[]', '3/c,§ID2§[1,2]',
     '61-§ID0§[{"_placeholder":true,"num":0}]',
@@ -198,6 +201,16 @@ def check_case(case):
         return _run(case, w)
     finally:
         w.close()
+
+
+def _has_placeholder(v):
+    if isinstance(v, dict):
+        if v.get('_placeholder') and 'num' in v:
+            return True
+        return any(_has_placeholder(x) for x in v.values())
+    if isinstance(v, list):
+        return any(_has_placeholder(x) for x in v)
+    return False
 
 
 def _subst(v, table):
@@ -383,6 +396,13 @@ def _run(case, w):
                         # a binary packet announces its attachments
                         decodable = False
                         labels['binary_type_without_count'] = True
+                if ser != 'msgpack' and p.packet_type in (5, 6) and \
+                        p.attachment_count == 0 and _has_placeholder(p.data):
+                    # a placeholder in a packet that announces no attachment
+                    # refers to nothing ("illegal attachments" for the
+                    # reference parser)
+                    decodable = False
+                    labels['placeholder_without_attachments'] = True
                 if p.packet_type in (2, 5) and not (
                         isinstance(p.data, list) and p.data):
                     # not an event: nothing names it, nothing to spread
